@@ -15,6 +15,7 @@
 
    Not covered by the specification: fusion, alternative splicing, circRNA (hence the restrictive
    switches --noncanonical-transcripts / --backsplicing-only): implementation-level check only. *)
+From MoPep Require Gen.Expasy Model.ExpasyRef Proofs.ExpasyProofs.
 From MoPep Require Import Model.Base Model.Rule Model.Digest Model.Spec Model.SpecStmt Model.W2F Model.SpecFlags
                           Gen.Bio Gen.Expasy Proofs.MonoProofs.
 Open Scope Z_scope.
@@ -197,3 +198,10 @@ Example c05_variants_adds := ex_variants_adds.    (* a second SNV adds DLR *)
 Example c05_sect_adds := ex_sect_adds.            (* SECT adds GG, the prefix of GGUHUK before its first U *)
 Example c05_w2f_adds := ex_w2f_adds.              (* W2F adds DFR, the image of DWR *)
 Example c05_novel_orf_adds := ex_novel_orf_adds.  (* an out-of-frame ATG of a coding transcript adds DWR *)
+
+(* The oracle of this property digests with the rule tables regenerated from expasy_rules.py
+   (coq/Gen/Expasy.v); they must be the ExPASy reference rules (same obligation as in Props/C10.v),
+   otherwise model and implementation would silently follow a changed rule together. *)
+Theorem rules_are_expasy_reference : MoPep.Gen.Expasy.site_rules = MoPep.Model.ExpasyRef.reference_rules.
+Proof. exact MoPep.Proofs.ExpasyProofs.rules_match_reference_proof. Qed.
+Print Assumptions rules_are_expasy_reference.
